@@ -59,6 +59,8 @@ type TxnRec struct {
 	CommitTS    uint64
 	CommitStep  [2]int // driver step before / after Commit returned
 	ModeUsed    string // 2pc | async | 1pc (from the commit callback info when available)
+	// provisional locks of an open aggressive-locking attempt (current / previous attempt)
+	AggrCur, AggrPrev map[string]uint64
 	// for the request-stream monitor (C04)
 	CommitCallEv       int64  // global event counter just before Commit was called
 	EndEv              int64  // ... just after Commit / Rollback returned (0 = never ended)
